@@ -35,17 +35,21 @@ VARIABLES lo, hi,      \* last exposed interval
 vars == <<lo, hi, seen, trues, lastStep, budget, final, dead>>
 
 Finite(l, h) == l > -Inf /\ h < Inf
+\* @type: (Int, Int) => Seq(<<Str, Bool>>);
 ExposeClauses(l, h) == <<
   <<"interval-is-empty", l <= h>>,
   <<"interval-widened", seen => l >= lo /\ h <= hi>>,
   <<"interval-excludes-the-final-cost", l <= final /\ final <= h>>,
   <<"progress-reported-but-interval-not-strictly-smaller", (seen /\ trues > 0) => (l > lo \/ h < hi)>>,
   <<"no-progress-reported-but-interval-is-not-a-single-value", lastStep = "quiet" => l = h>> >>
+\* @type: (Bool) => Seq(<<Str, Bool>>);
 StepClauses(r) == <<
   <<"progress-reported-on-a-single-value", (r /\ seen /\ lastStep = "none") => lo < hi>>,
   <<"more-progress-steps-than-the-interval-allows", (r /\ budget >= 0) => budget > 0>>,
   <<"progress-reported-after-no-progress", (r /\ dead) => FALSE>> >>
+\* @type: (Seq(<<Str, Bool>>)) => Bool;
 AllHold(cs) == \A k \in DOMAIN cs : cs[k][2]
+\* @type: (Seq(<<Str, Bool>>)) => Str;
 FirstFail(cs) == LET bad == {k \in DOMAIN cs : ~cs[k][2]}
                  IN IF bad = {} THEN "" ELSE cs[CHOOSE k \in bad : \A m \in bad : k <= m][1]
 
